@@ -598,19 +598,20 @@ class Mutations:
         no_activation = False
         for network_group in registry.groups:
             eval_module: OffspringType = getattr(individual, network_group.eval)
+            # NOTE: Whether a network can change its activation is only known after trying:
+            # a multi-input encoder (Dict / Tuple observations) reports `None` until its
+            # first change, which used to be applied but reported as "None"
             if isinstance(eval_module, list):
                 # TODO: Will need to modify when making multi-agent support more robust
                 # to different type sof settings (i.e. different observation spaces and thus
                 # network architectures for different agents)
+                eval_module = [self._permutate_activation(mod) for mod in eval_module]
                 if eval_module[0].activation is None:
                     no_activation = True
-
-                eval_module = [self._permutate_activation(mod) for mod in eval_module]
             else:
+                eval_module = self._permutate_activation(eval_module)
                 if eval_module.activation is None:
                     no_activation = True
-
-                eval_module = self._permutate_activation(eval_module)
 
             if no_activation:
                 warnings.warn(
